@@ -244,11 +244,11 @@ def tmp_vs_pattern(ctx, rule, m):
         ctx.und(rule, key, f"temporary name shape `{t}` not modelled", std)
 
 
-def r26_4(ctx, m):
+def r26_4(ctx, m, rid="R26.4"):
     """global index of a task's first sample = number of samples held by the lower ranks"""
     from ..util import cfg_of
     from ..terms import inline_at
-    ctx.rule("R26.4", "_compute_local_indices: a task's samples get the global indices start..start+n_local-1 with start the SUM OF THE "
+    ctx.rule(rid, "_compute_local_indices: a task's samples get the global indices start..start+n_local-1 with start the SUM OF THE "
                       "ACTUAL COUNTS of the lower ranks (allgather of the local counts, prefix up to the own rank) - a start computed "
                       "from the standard partition of the total (shareRange) is only right for lists that happen to be distributed "
                       "that way; serial lists use 0..n_local-1", floor=2)
@@ -266,11 +266,11 @@ def r26_4(ctx, m):
         serial = any(src(t) in (f"{comm} is None",) and pol for t, pol in known_atoms(cfg, n.id))
         v = n.ast.value
         if serial:
-            ctx.check("R26.4", f"{fi.key}::serial: range({nl})", src(v) == f"range({nl})", src(v), fi, n.ast)
+            ctx.check(rid, f"{fi.key}::serial: range({nl})", src(v) == f"range({nl})", src(v), fi, n.ast)
             continue
         key = f"{fi.key}::start = sum of the lower ranks' counts"
         if not (isinstance(v, ast.Call) and src(v.func) == "range" and len(v.args) == 2):
-            ctx.und("R26.4", key, f"`{src(v)}` is not range(start, stop)", fi, n.ast)
+            ctx.und(rid, key, f"`{src(v)}` is not range(start, stop)", fi, n.ast)
             continue
         st = inline_at(cfg, rd, n.id, v.args[0], depth=4)
         en = inline_at(cfg, rd, n.id, v.args[1], depth=1)
@@ -284,12 +284,14 @@ def r26_4(ctx, m):
         good = t in (f"sum({gathered}[:{comm}.Get_rank()])", f"sum({gathered}[:{comm}.rank])", f"sum({gathered}[0:{comm}.Get_rank()])")
         length_ok = src(v.args[1]).replace(" ", "") in (f"{src(v.args[0])}+{nl}", f"{nl}+{src(v.args[0])}")
         if good:
-            ctx.check("R26.4", key, length_ok, f"range({src(st)}, {src(en)})", fi, n.ast)
+            ctx.check(rid, key, length_ok, f"range({src(st)}, {src(en)})", fi, n.ast)
+        elif "Get_rank()*" in t or "*"+comm+".Get_rank()" in t or ".rank*" in t:
+            ctx.bad(rid, key, f"start = {src(st)}: assumes that every lower rank holds as many samples as this one", fi, n.ast)
         elif "shareRange" in t or "allreduce" in t:
-            ctx.bad("R26.4", key, f"start = {src(st)}: derived from the total count, not from the counts the lower ranks actually hold "
+            ctx.bad(rid, key, f"start = {src(st)}: derived from the total count, not from the counts the lower ranks actually hold "
                                   "(tasks with a non-standard share write files with gaps / duplicates)", fi, n.ast)
         else:
-            ctx.und("R26.4", key, f"start = {src(st)} not recognised", fi, n.ast)
+            ctx.und(rid, key, f"start = {src(st)} not recognised", fi, n.ast)
 
 
 def r26_5(ctx, m):
